@@ -21,7 +21,7 @@ RULE = ("(a) header/frame codec: every 12-bit origin and destination, ids incl. 
         "of the reference frames and a True result requires that the receiver accepted all of "
         "them. Non-trivial: bytes were compared; distinct = distinct (part, length, type, "
         "field class).")
-RULE += (" Later rounds added: traffic_direct writes, one-character string types, re-used and re-addressed headers, loop-back frames, kept bytearray messages re-sent with frames received in between, outages at a chosen fragment, kept buffers edited in place before being sent again, frames forwarded to a child after a completed or an abandoned fragment train, caller-set reserved bytes, the radio's read-only accessors used between messages.")
+RULE += (" Later rounds added: traffic_direct writes, one-character string types, re-used and re-addressed headers, loop-back frames, kept bytearray messages re-sent with frames received in between, outages at a chosen fragment, kept buffers edited in place before being sent again, frames forwarded to a child after a completed or an abandoned fragment train, caller-set reserved bytes, the radio's read-only accessors used between messages, message types 128..255 on air.")
 REQUIRED = {"pack_bytes": 10000, "unpack_roundtrip": 10000, "short_buffer_refused": 50,
             "onair_frames_vs_reference": 200, "tmrh_reassembly": 200, "caller_header_type": 200,
             "caller_header_type_routed": 10, "session_frames_vs_reference": 1000,
@@ -45,6 +45,14 @@ def gen_cases(ctx):
                         continue
                     yield {"part": "onair", "cls": cls, "len": n, "type": t, "how": how,
                            "to": [0, 0o11, 0][n % 3]}
+    # (b') the upper half of the type byte (the values the network layer itself uses, fragment
+    # types included): whatever the type, a long message leaves as first/more/last fragments with
+    # the type in the last one's reserved byte, a short one as one frame
+    for n in ((30, 49, 100, 10) if ctx.tier == "quick" else (0, 10, 24, 25, 30, 48, 49, 100, 144)):
+        for t in range(128, 256):
+            if (n <= 24 and t in (148, 149, 150)) or t == 193:
+                continue  # (one frame typed 148..150 IS a fragment on the wire; 193 is filtered out as NETWORK_ACK traffic)
+            yield {"part": "onair", "cls": "net", "len": n, "type": t, "how": ["send", "write"][(n + t) % 2], "to": 0}
     yield from gen_sessions(ctx)
     # (c) routed sends on a chain
     for i in range(12 if ctx.tier == "quick" else 400):
@@ -85,6 +93,8 @@ def gen_sessions(ctx):
             if mm.get("rebuf") and rng2.random() < 0.6:
                 mm["edit"] = True  # the application writes new content into the buffer it kept
                 msgs[-1]["incoming_after"] = msgs[-1]["incoming_after"] and rng2.random() < 0.3
+            if how in ("send", "write") and rng2.random() < 0.3:
+                mm["rx_waiting"] = True  # a frame for this node sits unread in its radio when it sends
             if how in ("send", "write") and rng2.random() < 0.35:
                 # a frame for the child 0o11 arrives afterwards and is forwarded (length, type)
                 mm["forward_after"] = [rng2.choice([0, 1, 10, 24]), rng2.choice([5, 64, 33])]
@@ -160,6 +170,9 @@ def run_session(ctx, case):
                  obj.crc, obj.get_auto_retries(), obj.last_tx_arc, obj.address(pp), obj.listen, obj.power,
                  obj.is_lna_enabled)
                 ctx.count("sessions_reading_radio_settings_between_messages")
+            if mm.get("rx_waiting"):
+                waiting = net_ref.pack_header(0, me, 950 + j, 5, 0) + b"waiting-%d" % j
+                radio.inject_rx(1, waiting)
             st["cur"], st["seen"] = j, []
             air0, ack0 = len(rig.air.log), len(ph.acked)
             node.deadline = node.t + 4000 * W.MS
@@ -216,6 +229,19 @@ def run_session(ctx, case):
             finally:
                 node.deadline = None
             node.idle(3 * W.MS)
+            if mm.get("rx_waiting"):
+                # ... and is read afterwards, intact
+                air_in, ack_in = len(rig.air.log), len(ph.acked)
+                obj.update()
+                gotw = []
+                while obj.available():
+                    f = obj.read()
+                    gotw.append((f.header.from_node, f.header.frame_id, f.header.message_type, bytes(f.message)))
+                ctx.clause("waiting_frame_read_afterwards")
+                if gotw != [(0, 950 + j, 5, b"waiting-%d" % j)] or len(rig.air.log) != air_in:
+                    ctx.violation("waiting-frame-lost-or-altered", "a frame that waited unread in the radio while message %d "
+                                  "(%s, %d bytes, returned %r) was sent is read afterwards as %r" % (j, how, n, ret, gotw), case)
+                    return
             if how in ("send", "write"):
                 kept = (msg_obj, msg) if isinstance(msg_obj, bytearray) else None
                 if mm.get("forward_after"):
